@@ -1270,7 +1270,9 @@ func (sa *Application) tryPlaceholderAllocate(nodeIterator func() NodeIterator, 
 			node := getNodeFn(ph.GetNodeID())
 			// got the node run same checks as for reservation (all but fits)
 			// resource usage should not change anyway between placeholder and real one at this point
-			if node != nil && node.preReserveConditions(request) == nil {
+			// a request that requires a node can only take over a placeholder on that node
+			if node != nil && (request.GetRequiredNode() == "" || request.GetRequiredNode() == node.NodeID) &&
+				node.preReserveConditions(request) == nil {
 				_, err := sa.allocateAsk(request)
 				if err != nil {
 					log.Log(log.SchedApplication).Warn("allocation of ask failed unexpectedly",
@@ -1325,6 +1327,10 @@ func (sa *Application) tryPlaceholderAllocate(nodeIterator func() NodeIterator, 
 				log.Log(log.SchedApplication).Debug("skipping node for placeholder alloc as state is unschedulable",
 					zap.String("allocationKey", resKey),
 					zap.String("node", node.NodeID))
+				return true
+			}
+			// a request that requires a node is not moved to another one
+			if reqFit.GetRequiredNode() != "" && reqFit.GetRequiredNode() != node.NodeID {
 				return true
 			}
 			if !node.preAllocateCheck(reqFit.GetAllocatedResource(), resKey) {
